@@ -5,7 +5,7 @@
 //! socket (`RequestMessage`s) is written as the observed output of that op.
 //!
 //! Line protocol (ops):
-//!   new <value|map> <cap> <node-len> <lane-len> <abort|ignore> <consumer-buffer>
+//!   new <value|map|raw> <cap> <node-len> <lane-len> <abort|ignore> <consumer-buffer>
 //!   attach <sync 0|1> <keep 0|1>
 //!   remote linked | synced | unlinked | eof | ev <hex> | mev upd <k> <hex> | mev rem <k> | mev clr
 //!          | mev take <n> | mev drop <n> | mev bad
@@ -31,7 +31,7 @@ use swimos_messages::protocol::{
 use swimos_model::Text;
 use swimos_runtime::downlink::failure::{AlwaysAbortStrategy, AlwaysIgnoreStrategy};
 use swimos_runtime::downlink::{
-    AttachAction, DownlinkOptions, DownlinkRuntimeConfig, IdentifiedAddress, MapDownlinkRuntime,
+    NoInterpretation, AttachAction, DownlinkOptions, DownlinkRuntimeConfig, IdentifiedAddress, MapDownlinkRuntime,
     ValueDownlinkRuntime,
 };
 use swimos_utilities::byte_channel::{byte_channel, BudgetedFutureExt, ByteReader, ByteWriter};
@@ -57,7 +57,8 @@ struct Consumer {
 }
 
 struct Rig {
-    map: bool,
+    map: bool,      // event bodies are interpreted map messages (flavour `map`)
+    map_cmds: bool, // consumers send map operations (flavours `map` and `raw`)
     node: String,
     lane: String,
     cbuf: usize,
@@ -142,7 +143,9 @@ fn map_body(mut body: BytesMut) -> String {
 }
 
 impl Rig {
-    fn start(map: bool, cap: usize, node_len: usize, lane_len: usize, abort: bool, cbuf: usize) -> Rig {
+    fn start(flavour: &str, cap: usize, node_len: usize, lane_len: usize, abort: bool, cbuf: usize) -> Rig {
+        let map = flavour == "map";
+        let raw = flavour == "raw";
         let node = format!("/{}", "n".repeat(node_len.saturating_sub(1)));
         let lane = "l".repeat(lane_len);
         let (req_tx, req_rx) = mpsc::channel(8);
@@ -161,7 +164,19 @@ impl Rig {
             address: RelativeAddress::new(Text::new(&node), Text::new(&lane)),
         };
         let budget = nz(1 << 40);
-        let handle = if map {
+        let handle = if raw {
+            // map-event downlinks of the server / self-decoding clients: frames are passed through
+            let rt = MapDownlinkRuntime::with_interpretation(
+                req_rx,
+                (sock_out_tx, sock_in_rx),
+                stop_rx,
+                address,
+                config,
+                AlwaysIgnoreStrategy,
+                NoInterpretation,
+            );
+            tokio::spawn(rt.run().with_budget(budget))
+        } else if map {
             if abort {
                 let rt = MapDownlinkRuntime::new(req_rx, (sock_out_tx, sock_in_rx), stop_rx, address, config, AlwaysAbortStrategy);
                 tokio::spawn(rt.run().with_budget(budget))
@@ -175,6 +190,7 @@ impl Rig {
         };
         Rig {
             map,
+            map_cmds: map || raw,
             node,
             lane,
             cbuf,
@@ -327,6 +343,10 @@ impl Rig {
                     toks.push("attach-blocked".into());
                 }
             }
+            ["remote", "ev", ..] if self.map => return "bad-op".into(),
+            ["remote", "mev", ..] if !self.map => return "bad-op".into(),
+            ["cmd", ..] if self.map_cmds => return "bad-op".into(),
+            ["mcmd", ..] if !self.map_cmds => return "bad-op".into(),
             ["remote", rest @ ..] => {
                 let (node, lane) = (self.node.clone(), self.lane.clone());
                 let path = RelativeAddress::new(node.as_str(), lane.as_str());
@@ -451,7 +471,11 @@ async fn run_case_async(ops: &[String]) -> Vec<String> {
             if let Some(r) = rig.take() {
                 r.handle.abort();
             }
-            let map = *fl == "map";
+            let map: &str = fl;
+            if !["value", "map", "raw"].contains(&map) {
+                outs.push("bad-op".into());
+                continue;
+            }
             let mut r = Rig::start(
                 map,
                 cap.parse().unwrap_or(64),
@@ -501,7 +525,8 @@ fn run_case(t: &mut Trace, ops: &[String]) {
 // ------------------------------------------------------------------------------------------------ generator
 
 struct GenState {
-    map: bool,
+    map: bool,      // events are map messages
+    map_cmds: bool, // commands are map operations
     n: usize,            // consumers attached
     w_live: Vec<bool>,   // command writer still held
     r_live: Vec<bool>,
@@ -518,7 +543,12 @@ fn small_body(rng: &mut Rng) -> String {
 }
 
 fn gen_case(rng: &mut Rng, t: &mut Trace, id: String) {
-    let map = rng.chance(2, 5);
+    let flavour = match rng.below(10) {
+        0..=4 => "value",
+        5..=7 => "map",
+        _ => "raw",
+    };
+    let map = flavour == "map";
     let node = rng.range(2, 6) as usize;
     let lane = rng.range(1, 5) as usize;
     let hdr = 32 + node + lane;
@@ -530,8 +560,8 @@ fn gen_case(rng: &mut Rng, t: &mut Trace, id: String) {
     } as usize;
     let strat = if rng.chance(1, 3) { "ignore" } else { "abort" };
     let cbuf = *rng.pick(&[1usize, 7, 16, 64, 4096]);
-    let mut ops = vec![format!("new {} {} {} {} {} {}", if map { "map" } else { "value" }, cap, node, lane, strat, cbuf)];
-    let mut g = GenState { map, n: 0, w_live: vec![], r_live: vec![], safe: vec![], risky: cap < hdr, hdr };
+    let mut ops = vec![format!("new {} {} {} {} {} {}", flavour, cap, node, lane, strat, cbuf)];
+    let mut g = GenState { map, map_cmds: flavour != "value", n: 0, w_live: vec![], r_live: vec![], safe: vec![], risky: cap < hdr, hdr };
     let len = rng.range(4, 40);
     // A well-behaved remote most of the time; a misbehaving one (any notification at any time) otherwise.
     let polite = rng.chance(5, 6);
@@ -560,7 +590,7 @@ fn gen_case(rng: &mut Rng, t: &mut Trace, id: String) {
                     i += 1;
                     let parts: Vec<&str> = op.split_whitespace().collect();
                     let out = if parts[0] == "new" {
-                        let mut r = Rig::start(map, cap, node, lane, strat != "ignore", cbuf);
+                        let mut r = Rig::start(flavour, cap, node, lane, strat != "ignore", cbuf);
                         let _ = r.quiesce().await;
                         rig = Some(r);
                         "ok".to_string()
@@ -680,7 +710,7 @@ fn next_op(rng: &mut Rng, g: &mut GenState, polite: bool, linked: &mut bool) -> 
                 continue;
             }
             let c = *rng.pick(&cands);
-            if g.map {
+            if g.map_cmds {
                 let k = rng.range(1, 3);
                 return match rng.below(10) {
                     0..=5 => format!("mcmd {} upd {} {}", c, k, small_body(rng)),
